@@ -780,16 +780,21 @@ class Epoch(object):
             raise ValueError("Invalid input data")
         day = int(dd)
         frac = dd % 1
-        if yyyy >= 1:  # datetime's minimum year is 1
-            try:
-                d = datetime.date(yyyy, mm, day)
-            except ValueError:
-                raise ValueError("Invalid input date")
-            doy = d.timetuple().tm_yday
-        else:
-            k = 2 if Epoch.is_leap(yyyy) else 1
-            doy = (iint((275.0 * mm) / 9.0)
-                   - k * iint((mm + 9.0) / 12.0) + day - 30.0)
+        mm = int(mm)
+        # Check the day against the length of the month in the calendar in
+        # force (Julian calendar before October 15th, 1582)
+        maxdays = [31, 28, 31, 30, 31, 30, 31, 31, 30, 31, 30, 31]
+        limit_day = maxdays[mm - 1]
+        if mm == 2 and Epoch.is_leap(yyyy):
+            limit_day = 29
+        if day > limit_day:
+            raise ValueError("Invalid input date")
+        k = 1 if Epoch.is_leap(yyyy) else 2
+        doy = (iint((275.0 * mm) / 9.0)
+               - k * iint((mm + 9.0) / 12.0) + day - 30.0)
+        # Ten days were dropped in October 1582
+        if yyyy == 1582 and (mm > 10 or (mm == 10 and day >= 15)):
+            doy -= 10.0
         return float(doy + frac)
 
     def doy(self):
@@ -868,22 +873,17 @@ class Epoch(object):
         if isinstance(year, (int, float)) and isinstance(doy, (int, float)):
             frac = float(doy % 1)
             doy = int(doy)
-            if year >= 1:  # datetime's minimum year is 1
-                ref = datetime.date(year, 1, 1)
-                mydate = datetime.date.fromordinal(ref.toordinal() + doy - 1)
-                return year, mydate.month, mydate.day + frac
+            # Ten days were dropped in October 1582 (October 4th is DOY 277)
+            if year == 1582 and doy > 277:
+                doy += 10
+            k = 1 if Epoch.is_leap(year) else 2
+            if doy < 32:
+                m = 1
             else:
-                # The algorithm provided by Meeus doesn't work for years below
-                # +1. This little hack solves that problem (the 'if' result is
-                # inverted here).
-                k = 1 if Epoch.is_leap(year) else 2
-                if doy < 32:
-                    m = 1
-                else:
-                    m = iint((9.0 * (k + doy)) / 275.0 + 0.98)
-                d = (doy - iint((275.0 * m) / 9.0)
-                     + k * iint((m + 9.0) / 12.0) + 30)
-                return year, int(m), d + frac
+                m = iint((9.0 * (k + doy)) / 275.0 + 0.98)
+            d = (doy - iint((275.0 * m) / 9.0)
+                 + k * iint((m + 9.0) / 12.0) + 30)
+            return year, int(m), d + frac
         else:
             raise ValueError("Invalid input values")
 
